@@ -1,4 +1,294 @@
-From OV Require Import Common.Base C01.Model.
-Example C01_placeholder : pool_run Repaired {| p_fam := V4; p_lo := 1; p_hi := 2; p_excl := [] |} [] <> None.
-Proof. vm_compute. discriminate. Qed.
-Print Assumptions C01_placeholder.
+(* C01/Properties.v — the property theorems only.  Each is closed by [exact] of a lemma from
+   Proofs.v / ProofsPD.v / ProofsReg.v and followed by Print Assumptions.
+
+   Vocabulary.  A history is a list of calls; Allocate calls carry the implementation's answer
+   ([obs]) and a history is *accepted* ([pool_run .. = Some ..]) when every answer was admissible
+   (drawn from the free list / exhaustion with an empty free list).  Theorems quantify over every
+   accepted history, i.e. over every allocation policy, including the code's own (C01_lifo_is_accepted).
+   [ledger evs] is the ownership map recomputed from the observable events only.
+   [Repaired] is the behaviour with fixes/C01_*.patch applied; [Defective] is the code as found. *)
+From OV Require Import Common.Base C01.Model C01.Proofs C01.ProofsPD C01.ProofsReg.
+Local Open Scope N_scope.
+
+(* ================================================================ PoolAllocator (IPv4, IPv6 IA_NA) *)
+
+(* the allocator's lease map is exactly what a caller can reconstruct from the answers it saw *)
+Theorem C01_ledger_agrees :
+  forall v c ks st evs, pool_run v c ks = Some (st, evs) -> leases st = ledger evs.
+Proof. exact ledger_agrees. Qed.
+Print Assumptions C01_ledger_agrees.
+
+(* confined + unique: whatever Allocate hands out, in any history (reserve/release of excluded,
+   out-of-range, foreign-family, nil addresses included), lies inside the range, is not excluded
+   (gateway included), and is held by nobody at that moment *)
+Theorem C01_confined_unique :
+  forall c ks st evs pre s obs a post,
+    pool_run Repaired c ks = Some (st, evs) -> evs = pre ++ (CAlloc s obs, OAddr a) :: post ->
+    assignable c a = true /\ lm_lookup a (ledger pre) = None.
+Proof. exact alloc_confined_unique. Qed.
+Print Assumptions C01_confined_unique.
+
+(* a reservation succeeds only if nobody else holds the address, and is refused only if somebody else does *)
+Theorem C01_unique_reserve :
+  forall v c ks st evs pre s a o post,
+    pool_run v c ks = Some (st, evs) -> evs = pre ++ (CReserve (Some a) s, o) :: post ->
+    (o = OOk /\ (lm_lookup a (ledger pre) = None \/ lm_lookup a (ledger pre) = Some s)) \/
+    (o = OReserved /\ exists s', lm_lookup a (ledger pre) = Some s' /\ s' <> s).
+Proof. exact reserve_unique. Qed.
+Print Assumptions C01_unique_reserve.
+
+(* nothing leaks: after any history the free list is a duplicate-free enumeration of
+   assignable minus held *)
+Theorem C01_no_leak :
+  forall c ks st evs, pool_run Repaired c ks = Some (st, evs) ->
+    NoDup (free st) /\
+    forall a, In a (free st) <-> (assignable c a = true /\ lm_lookup a (ledger evs) = None).
+Proof. exact free_is_assignable_minus_held. Qed.
+Print Assumptions C01_no_leak.
+
+(* hence Available() = |assignable| - |held and assignable| *)
+Theorem C01_available_count :
+  forall c ks st evs, pool_run Repaired c ks = Some (st, evs) ->
+    (length (free st) + length (filter (fun a => lm_mem a (ledger evs)) (assignable_list c))
+     = length (assignable_list c))%nat.
+Proof. exact available_count. Qed.
+Print Assumptions C01_available_count.
+
+(* exhaustion is reported only when no assignable address is free *)
+Theorem C01_exhausted_only_when_full :
+  forall c ks st evs pre s obs post,
+    pool_run Repaired c ks = Some (st, evs) -> evs = pre ++ (CAlloc s obs, OExhausted) :: post ->
+    forall a, assignable c a = true -> lm_lookup a (ledger pre) <> None.
+Proof. exact exhausted_only_when_full. Qed.
+Print Assumptions C01_exhausted_only_when_full.
+
+(* a released assignable address is allocatable again at once *)
+Theorem C01_release_then_allocatable :
+  forall c ks st evs a st1 o s,
+    pool_run Repaired c ks = Some (st, evs) ->
+    pool_step Repaired c st (CRelease (Some a)) = Some (st1, o) -> assignable c a = true ->
+    exists st2, pool_step Repaired c st1 (CAlloc s (Some a)) = Some (st2, OAddr a).
+Proof.
+  intros c ks st evs a st1 o s H. apply release_then_allocatable.
+  eapply inv_run; [apply inv_init | exact H].
+Qed.
+Print Assumptions C01_release_then_allocatable.
+
+(* the policy the code implements (pop the end of the free slice) is always an accepted answer, so
+   the theorems above are about the real allocator and not about an empty set of histories *)
+Theorem C01_lifo_is_accepted :
+  forall c ks st evs s, pool_run Repaired c ks = Some (st, evs) ->
+    pool_step Repaired c st (CAlloc s (lifo_choice st)) = Some (alloc_lifo st s).
+Proof. exact lifo_progress. Qed.
+Print Assumptions C01_lifo_is_accepted.
+
+(* the code as found violates confinement: Reserve(excluded) / Release / Allocate *)
+Definition ex_pool : pcfg := {| p_fam := V4; p_lo := 167772410; p_hi := 167772421; p_excl := [(V4, 167772415)] |}.
+Theorem C01_confined_refuted :
+  exists c ks st evs s obs a,
+    pool_run Defective c ks = Some (st, evs) /\ In (CAlloc s obs, OAddr a) evs /\ assignable c a = false.
+Proof.
+  exists ex_pool,
+    [CReserve (Some (V4, 167772415)) 3; CRelease (Some (V4, 167772415)); CAlloc 1 (Some (V4, 167772415))].
+  eexists. eexists. exists 1, (Some (V4, 167772415)), (V4, 167772415).
+  split; [vm_compute; reflexivity|]. split; [right; right; left; reflexivity | vm_compute; reflexivity].
+Qed.
+Print Assumptions C01_confined_refuted.
+
+(* the same history is rejected by the repaired model at the Allocate *)
+Example C01_confined_repaired_rejects :
+  pool_run Repaired ex_pool
+    [CReserve (Some (V4, 167772415)) 3; CRelease (Some (V4, 167772415)); CAlloc 1 (Some (V4, 167772415))] = None.
+Proof. vm_compute. reflexivity. Qed.
+Print Assumptions C01_confined_repaired_rejects.
+
+(* non-vacuity: a history over 10.0.0.250-10.0.1.5 minus 10.0.0.255 with allocation, conflict,
+   release, re-allocation, direction change and exhaustion of a 2-address pool is accepted *)
+Example C01_pool_nonvacuous :
+  (exists st evs,
+     pool_run Repaired ex_pool
+       [CAlloc 1 (Some (V4, 167772410)); CReserve (Some (V4, 167772410)) 2; CReserve (Some (V6, 281470849515967)) 2;
+        CRelease (Some (V4, 167772410)); CSetDir false; CAlloc 3 (Some (V4, 167772421)); CAvail] = Some (st, evs)
+     /\ map snd evs = [OAddr (V4, 167772410); OReserved; OOk; OOk; OOk; OAddr (V4, 167772421); ONum 10]) /\
+  (exists st evs,
+     pool_run Repaired {| p_fam := V6; p_lo := 5; p_hi := 6; p_excl := [] |}
+       [CAlloc 1 (Some (V6, 5)); CAlloc 2 (Some (V6, 6)); CAlloc 3 None] = Some (st, evs)).
+Proof. split; eexists; eexists; vm_compute; [split|]; reflexivity. Qed.
+Print Assumptions C01_pool_nonvacuous.
+
+(* ================================================================ PrefixAllocator (IPv6 PD) *)
+
+(* every index of the pool maps to a prefix that is aligned, inside the network, below 2^128, and
+   maps back to the same index — for all network lengths, prefix lengths <= 128 with at most 63
+   delegated bits, all bases; carries across the 64-bit word boundary included *)
+Theorem C01_pd_roundtrip :
+  forall v c i, pd_wf c = true -> i < pd_count c ->
+    let P := index_to_prefix c i in
+    prefix_to_index v c (Pfx (Some (V6, P)) (pd_plen c) 128) = Some i /\
+    P mod Sh c = 0 /\ P / Mn c = pd_base c / Mn c /\ P < W128.
+Proof. exact pd_roundtrip. Qed.
+Print Assumptions C01_pd_roundtrip.
+
+(* (repaired) a prefix argument is accepted only if it lies inside the pool network, and then its
+   masked address is exactly the prefix of the index: foreign and below-base prefixes are rejected,
+   and two arguments with the same index denote the same delegated prefix *)
+Theorem C01_pd_injective :
+  forall c p i A, pd_wf c = true -> prefix_to_index Repaired c p = Some i -> pfx_num p = Some A -> A < W128 ->
+    i < pd_count c /\ (A / Sh c) * Sh c = index_to_prefix c i /\ A / Mn c = pd_base c / Mn c.
+Proof. exact pd_injective. Qed.
+Print Assumptions C01_pd_injective.
+
+Theorem C01_pd_same_index_same_prefix :
+  forall c p q i A B, pd_wf c = true ->
+    prefix_to_index Repaired c p = Some i -> prefix_to_index Repaired c q = Some i ->
+    pfx_num p = Some A -> pfx_num q = Some B -> A < W128 -> B < W128 -> A / Sh c = B / Sh c.
+Proof. exact pd_same_index_same_prefix. Qed.
+Print Assumptions C01_pd_same_index_same_prefix.
+
+(* the code as found accepts 2101:db8::/72 for the pool 2001:db8::/64 -> /72 (index 0), and
+   2001:db8:0:0:1::5/128 for 2001:db8::/120 -> /128 *)
+Definition ex_pd : pdcfg := {| pd_net := 42540766411282592856903984951653826560; pd_nbits := 64; pd_plen := 72 |}.
+Definition ex_foreign : N := 43869994407067508729807792011934171136.
+Theorem C01_pd_injective_refuted :
+  exists c p i A, pd_wf c = true /\ prefix_to_index Defective c p = Some i /\ pfx_num p = Some A /\ A < W128 /\
+    (A / Sh c) * Sh c <> index_to_prefix c i /\ A / Mn c <> pd_base c / Mn c.
+Proof.
+  exists ex_pd, (Pfx (Some (V6, ex_foreign)) 72 128), 0, ex_foreign.
+  vm_compute. repeat split; try reflexivity; discriminate.
+Qed.
+Print Assumptions C01_pd_injective_refuted.
+
+(* ... with the consequence that one prefix is delegated to two sessions *)
+Theorem C01_pd_unique_refuted :
+  exists c ks st evs ip,
+    pd_run Defective c ks = Some (st, evs) /\
+    map snd evs = [QPfx ip 72 128; QOk; QPfx ip 72 128] /\
+    (forall k o p, In (k, o) evs -> k = PRelease p -> prefix_to_index Repaired c p = None).
+Proof.
+  exists ex_pd, [PAlloc 1 (Some (pd_net ex_pd, 72, 128)); PRelease (Pfx (Some (V6, ex_foreign)) 72 128);
+                 PAlloc 2 (Some (pd_net ex_pd, 72, 128))].
+  eexists. eexists. exists (pd_net ex_pd). split; [vm_compute; reflexivity|]. split; [reflexivity|].
+  intros k o p [H|[H|[H|[]]]] E; inversion H; subst; try discriminate.
+  inversion H1; subst. vm_compute. reflexivity.
+Qed.
+Print Assumptions C01_pd_unique_refuted.
+
+(* (repaired) every delegated prefix of every accepted history is a /plen inside the network, aligned,
+   and its index is held by nobody according to the ledger of the earlier events *)
+Theorem C01_pd_confined_unique :
+  forall c ks st evs pre s obs ip ones bits post,
+    pd_wf c = true ->
+    pd_run Repaired c ks = Some (st, evs) -> evs = pre ++ (PAlloc s obs, QPfx ip ones bits) :: post ->
+    exists i, i < pd_count c /\ ip = index_to_prefix c i /\ ones = pd_plen c /\ bits = 128 /\
+              ip mod Sh c = 0 /\ ip / Mn c = pd_base c / Mn c /\
+              lm_lookup (key_of_idx i) (pd_ledger Repaired c pre) = None.
+Proof. exact pd_alloc_confined_unique. Qed.
+Print Assumptions C01_pd_confined_unique.
+
+Theorem C01_pd_exhausted_only_when_full :
+  forall c ks st evs pre s obs post,
+    pd_run Repaired c ks = Some (st, evs) -> evs = pre ++ (PAlloc s obs, QExhausted) :: post ->
+    forall i, i < pd_count c -> lm_lookup (key_of_idx i) (pd_ledger Repaired c pre) <> None.
+Proof. exact pd_exhausted_only_when_full. Qed.
+Print Assumptions C01_pd_exhausted_only_when_full.
+
+(* non-vacuity: a /62 network given unmasked, /66 prefixes: index 7 spills from the low into the high
+   64-bit word; the repaired model rejects the foreign prefix; a history with conflict *)
+Example C01_pd_nonvacuous :
+  pd_wf {| pd_net := 42540766411282592935302647264919420927; pd_nbits := 62; pd_plen := 66 |} = true /\
+  index_to_prefix {| pd_net := 42540766411282592935302647264919420927; pd_nbits := 62; pd_plen := 66 |} 7
+    = 42540766411282592930690961246492033024 + 2 ^ 64 + 3 * 2 ^ 62 /\
+  prefix_to_index Repaired ex_pd (Pfx (Some (V6, ex_foreign)) 72 128) = None /\
+  (exists st evs, pd_run Repaired ex_pd
+     [PAlloc 1 (Some (pd_net ex_pd, 72, 128)); PRelease (Pfx (Some (V6, ex_foreign)) 72 128);
+      PReserve (Pfx (Some (V6, pd_net ex_pd + 5)) 72 128) 2; PAvail] = Some (st, evs)
+     /\ map snd evs = [QPfx (pd_net ex_pd) 72 128; QOk; QReserved; QNum 255]).
+Proof. vm_compute. repeat split; try reflexivity. eexists; eexists; split; reflexivity. Qed.
+Print Assumptions C01_pd_nonvacuous.
+
+(* ================================================================ Registry *)
+
+(* every pool of the registry keeps the pool invariant through every registry history
+   (allocate from profile, release, reserve in pool, reserve/release by IP, direction change) *)
+Theorem C01_registry_pools_no_leak :
+  forall pfs ks st evs k c ps,
+    reg_run_from Repaired (reg_init pfs) ks = Some (st, evs) ->
+    assoc_find key_eqb k (r_allocs st) = Some (c, ps) ->
+    NoDup (free ps) /\ forall a, In a (free ps) <-> (assignable c a = true /\ lm_lookup a (leases ps) = None).
+Proof.
+  intros pfs ks st evs k c ps H E. eapply rinv_find; [|exact E].
+  eapply rinv_run; [apply rinv_init | exact H].
+Qed.
+Print Assumptions C01_registry_pools_no_leak.
+
+(* AllocateFromProfile answered (k, a): a is assignable in pool k and held by nobody there; and either the
+   override names k, or k is in the profile's list, has the subscriber's VRF, the override (if any) had
+   no free address, and every earlier same-VRF pool of the list had no free address *)
+Theorem C01_profile_order :
+  forall pfs ks st evs pf ov vrf s k a st' o,
+    reg_run_from Repaired (reg_init pfs) ks = Some (st, evs) ->
+    reg_step Repaired st (RAlloc pf ov vrf s (Some (k, a))) = Some (st', o) ->
+    o = ROAddr k a /\
+    (exists c ps, assoc_find key_eqb k (r_allocs st) = Some (c, ps) /\
+                  assignable c a = true /\ lm_lookup a (leases ps) = None) /\
+    ((ov <> 0 /\ k = (pf, ov)) \/
+     (exists l1 l2, pools_of st pf = l1 ++ k :: l2 /\ vrf_of st k = vrf /\
+                    (ov = 0 \/ has_free st (pf, ov) = false) /\
+                    forall k', In k' l1 -> vrf_of st k' = vrf -> has_free st k' = false)).
+Proof.
+  intros pfs ks st evs pf ov vrf s k a st' o H. apply alloc_answer.
+  eapply rinv_run; [apply rinv_init | exact H].
+Qed.
+Print Assumptions C01_profile_order.
+
+(* exhaustion through a profile only when the override and every same-VRF pool of the profile are full *)
+Theorem C01_profile_exhausted :
+  forall st pf ov vrf s st' o,
+    reg_step Repaired st (RAlloc pf ov vrf s None) = Some (st', o) ->
+    (ov = 0 \/ has_free st (pf, ov) = false) /\
+    forall k, In k (pools_of st pf) -> vrf_of st k = vrf -> has_free st k = false.
+Proof. exact alloc_exhausted. Qed.
+Print Assumptions C01_profile_exhausted.
+
+(* "has no free address" means what it says *)
+Theorem C01_has_free_spec :
+  forall pfs ks st evs k, reg_run_from Repaired (reg_init pfs) ks = Some (st, evs) ->
+    (has_free st k = true <->
+     exists c ps a, assoc_find key_eqb k (r_allocs st) = Some (c, ps) /\
+                    assignable c a = true /\ lm_lookup a (leases ps) = None).
+Proof.
+  intros pfs ks st evs k H. apply has_free_spec. eapply rinv_run; [apply rinv_init | exact H].
+Qed.
+Print Assumptions C01_has_free_spec.
+
+(* the list walked is the profile's pools in ascending priority (v4) / configuration order (v6) *)
+Theorem C01_profile_list_sorted :
+  forall st pf,
+    pools_of (init_profile st pf) (rf_name pf) =
+      map (fun p => (rf_name pf, rp_name p)) (if rf_sorted pf then sort_by_prio (rf_pools pf) else rf_pools pf) /\
+    Sorted.StronglySorted prio_le (sort_by_prio (rf_pools pf)) /\
+    Permutation.Permutation (sort_by_prio (rf_pools pf)) (rf_pools pf).
+Proof.
+  intros st pf. split; [apply init_profile_pools | apply sort_by_prio_spec].
+Qed.
+Print Assumptions C01_profile_list_sorted.
+
+(* non-vacuity: two pools in VRF 1 (priorities 5 and 1) and one without VRF; a VRF-1 subscriber is
+   served from the priority-1 pool first, then from the priority-5 pool, then exhaustion; the pool
+   without VRF is never used for it; an override is honoured *)
+Definition ex_reg : list rprofile :=
+  [ {| rf_name := 1; rf_sorted := true;
+       rf_pools := [ {| rp_name := 1; rp_prio := 5; rp_vrf := 1;
+                        rp_cfg := Some {| p_fam := V4; p_lo := 10; p_hi := 10; p_excl := [] |} |};
+                     {| rp_name := 2; rp_prio := 1; rp_vrf := 1;
+                        rp_cfg := Some {| p_fam := V4; p_lo := 20; p_hi := 20; p_excl := [] |} |};
+                     {| rp_name := 3; rp_prio := 0; rp_vrf := 0;
+                        rp_cfg := Some {| p_fam := V4; p_lo := 30; p_hi := 31; p_excl := [] |} |} ] |} ].
+Example C01_registry_nonvacuous :
+  pools_of (reg_init ex_reg) 1 = [(1, 3); (1, 2); (1, 1)] /\
+  exists st evs,
+    reg_run_from Repaired (reg_init ex_reg)
+      [RAlloc 1 0 1 7 (Some ((1, 2), (V4, 20))); RAlloc 1 0 1 8 (Some ((1, 1), (V4, 10))); RAlloc 1 0 1 9 None;
+       RAlloc 1 3 1 9 (Some ((1, 3), (V4, 30)))] = Some (st, evs).
+Proof. vm_compute. split; [reflexivity | eexists; eexists; reflexivity]. Qed.
+Print Assumptions C01_registry_nonvacuous.
